@@ -109,16 +109,20 @@ type Header struct {
 
 // Load checks the Magic sequence and loads the header fields.
 func (h *Header) Load(buf []byte) error {
+	if len(buf) < 8+4 {
+		return fmt.Errorf("header too short: %d bytes", len(buf))
+	}
 	// Use a magic byte sequence to bail fast when user passes a corrupted/unrelated stream.
 	if *(*[8]byte)(buf[:8]) != Magic {
 		return fmt.Errorf("not a radiance compactindex file")
 	}
 	// read length of the rest of the header
 	lenWithoutMagicAndLen := binary.LittleEndian.Uint32(buf[8:12])
-	if lenWithoutMagicAndLen < 12 {
+	// the rest of the header holds at least the value size (8), the number of buckets (4) and the version (1)
+	if lenWithoutMagicAndLen < 8+4+1 {
 		return fmt.Errorf("invalid header length")
 	}
-	if lenWithoutMagicAndLen > uint32(len(buf)) {
+	if uint64(lenWithoutMagicAndLen)+8+4 > uint64(len(buf)) {
 		return fmt.Errorf("invalid header length")
 	}
 	// read the rest of the header
